@@ -21,6 +21,7 @@ func init() {
 		requestRevalidatesTransport(c, "C09.18")
 		handlerReleasedUnderMutex(c, "C09.19")
 		headerValuesComplete(c, "C09.20")
+		v3BinaryPayloadCodec(c, "C09.21", true)
 		variadicIndexSafety(c, "C09.4b")
 		containerEffects(c, "C09.14")
 		baseTransportEffects(c, "C09.15")
